@@ -33,6 +33,10 @@ pub enum StepIn {
     /// bridge only: malformed bytes as an event / as the response to request o
     BadEvent { bytes: Vec<u8> },
     BadResponse { o: [u32; 3], bytes: Vec<u8> },
+    /// bridge only: damaged bytes that STILL decode (trailing bytes, a changed payload): valid input, to be
+    /// treated as the event / value they decode to
+    RawEvent { bytes: Vec<u8> },
+    RawResponse { o: [u32; 3], bytes: Vec<u8> },
 }
 
 #[derive(Deserialize, Serialize, Clone, Debug)]
@@ -130,6 +134,12 @@ pub trait Host {
         None
     }
     fn bad_response(&mut self, _o: [u32; 3], _bytes: &[u8]) -> Option<Obs> {
+        None
+    }
+    fn raw_event(&mut self, _bytes: &[u8]) -> Option<Obs> {
+        None
+    }
+    fn raw_response(&mut self, _o: [u32; 3], _bytes: &[u8]) -> Option<Obs> {
         None
     }
     fn can_drop(&self) -> bool {
@@ -672,6 +682,42 @@ impl Host for BridgeHost {
         f();
         Some(Obs { line: json!({"e":"abort","c":c}), new_ops: vec![], kinds: vec![] })
     }
+    fn raw_event(&mut self, bytes: &[u8]) -> Option<Obs> {
+        use bincode::Options;
+        let ev: Event = match &self.bridge {
+            AnyBridge::Bin(_) => bincode_opts().deserialize(bytes).ok()?,
+            AnyBridge::Json(_) => {
+                let mut de = serde_json::Deserializer::from_slice(bytes);
+                <Event as Deserialize>::deserialize(&mut de).ok()?
+            }
+        };
+        // (what the app would do with a program number it does not have is not in the model)
+        match &ev {
+            Event::Run(p) if (*p as usize) >= self.ctx.table.progs.len() => return None,
+            Event::Em { .. } => return None,
+            _ => {}
+        }
+        let r = self.call(None, bytes);
+        Some(self.obs(json!({"e":"event","ev":ev_json(&ev),"raw":bytes.len()}), r))
+    }
+    fn raw_response(&mut self, o: [u32; 3], bytes: &[u8]) -> Option<Obs> {
+        use bincode::Options;
+        let id = *self.ids.get(&o)?;
+        let val: u32 = match &self.bridge {
+            AnyBridge::Bin(_) => bincode_opts().deserialize(bytes).ok()?,
+            AnyBridge::Json(_) => {
+                let mut de = serde_json::Deserializer::from_slice(bytes);
+                <u32 as Deserialize>::deserialize(&mut de).ok()?
+            }
+        };
+        // (the model computes with 32-bit integers -- values whose doubles and successors fit -- and keeps 0
+        // for "no value yet")
+        if val == 0 || val > 1_000_000 {
+            return None;
+        }
+        let r = self.call(Some(id), bytes);
+        Some(self.obs(json!({"e":"resolve","o":o,"val":val,"id":id,"raw":bytes.len()}), r))
+    }
     fn bad_event(&mut self, bytes: &[u8]) -> Option<Obs> {
         crate::alloc::reset_peak();
         let t0 = std::time::Instant::now();
@@ -863,6 +909,8 @@ pub fn run_case(case: &Case) -> Vec<Value> {
                 host.abort(*c)
             }
             StepIn::BadEvent { bytes } => host.bad_event(bytes),
+            StepIn::RawEvent { bytes } => host.raw_event(bytes),
+            StepIn::RawResponse { o, bytes } => host.raw_response(*o, bytes),
             StepIn::BadResponse { o, bytes } => host.bad_response(*o, bytes),
         }));
         match r {
@@ -878,13 +926,13 @@ pub fn run_case(case: &Case) -> Vec<Value> {
                     }
                 }
                 match step {
-                    StepIn::Resolve { o, .. } | StepIn::BadResponse { o, .. }
+                    StepIn::Resolve { o, .. } | StepIn::BadResponse { o, .. } | StepIn::RawResponse { o, .. }
                         if known.kinds.get(o) == Some(&"once") =>
                     {
                         // the bridge forgets a one-shot request once it has been answered
                         known.ops.retain(|k| k.0 != *o);
                     }
-                    StepIn::Resolve { o, .. } => {
+                    StepIn::Resolve { o, .. } | StepIn::RawResponse { o, .. } => {
                         if let Some(k) = known.ops.iter_mut().find(|k| k.0 == *o) {
                             k.1 += 1;
                         }
@@ -945,6 +993,20 @@ pub fn run_case(case: &Case) -> Vec<Value> {
                             lines.push(l);
                             executed.push(step);
                         }
+                        continue;
+                    }
+                    // the damage left a valid encoding (trailing bytes, another value): the bridge has to take it
+                    // for what it decodes to
+                    let step = if as_event {
+                        StepIn::RawEvent { bytes }
+                    } else {
+                        let (o, _) = known.ops[rng.random_range(0..known.ops.len())];
+                        StepIn::RawResponse { o, bytes }
+                    };
+                    if let Some(l) = do_step(&mut host, &mut known, &step) {
+                        dead = l["e"] == "panic";
+                        lines.push(l);
+                        executed.push(step);
                         continue;
                     }
                 }
